@@ -69,7 +69,7 @@ type PropCheck struct {
 	Dirs    []string
 	Jobs    func(tier string, seed int64) []Job
 	Only    func(job Job, assertName string) bool // which obligations belong to this property
-	Post    func(c *CheckCtx)                      // extra verdict logic (structural checks etc.)
+	Post    func(c *CheckCtx)                     // extra verdict logic (structural checks etc.)
 	Bounds  map[string]interface{}
 	Assume  []string
 	Stubs   []string
@@ -546,7 +546,9 @@ func (c *CheckCtx) writeEvidence(wall time.Duration) {
 	var st time.Duration
 	maxTrace := 0
 	infeasible, panics := 0, 0
+	raceChecks := 0
 	for _, jr := range c.Results {
+		raceChecks += jr.RaceChecks
 		queries += jr.Queries
 		feas += jr.FeasQ
 		paths += jr.Paths
@@ -585,64 +587,62 @@ func (c *CheckCtx) writeEvidence(wall time.Duration) {
 			}
 		}
 	}
-	// samples: a few obligations written out
+	// samples: a few jobs written out (harness, parameters, paths, some obligations)
 	var samples []interface{}
 	samples = append(samples, c.Samples...)
-	step := len(c.Results)/4 + 1
+	step := len(c.Results)/5 + 1
 	for i := 0; i < len(c.Results); i += step {
 		jr := c.Results[i]
+		var obs []interface{}
+		nontriv := 0
 		for _, o := range jr.Obls {
-			if o.Verdict == "unsat" {
-				samples = append(samples, map[string]interface{}{"obligation": o.Name, "harness": jr.Job.Harness, "params": jr.Job.Params,
-					"verdict": o.Verdict, "ms": o.Ms, "paths_of_job": jr.Paths})
+			if o.Verdict == "trivial" && nontriv+len(obs) >= 2 {
+				continue
+			}
+			if o.Verdict != "trivial" {
+				nontriv++
+			}
+			obs = append(obs, map[string]interface{}{"obligation": o.Name, "verdict": o.Verdict, "ms": o.Ms, "free_variables": o.NVars})
+			if len(obs) >= 5 {
 				break
 			}
 		}
-	}
-	if len(samples) == 0 {
-		for _, jr := range c.Results {
-			for _, o := range jr.Obls {
-				samples = append(samples, map[string]interface{}{"obligation": o.Name, "verdict": o.Verdict})
-				if len(samples) >= 3 {
-					break
-				}
-			}
-			if len(samples) >= 3 {
-				break
-			}
-		}
+		samples = append(samples, map[string]interface{}{"job": jr.Job.Label, "harness": jr.Job.Harness, "params": jr.Job.Params,
+			"paths": jr.Paths, "completed_paths": jr.OkPaths, "infeasible_paths": jr.Infeasible, "queries": jr.Queries,
+			"ssa_instructions": jr.Instrs, "race_checked_accesses": jr.RaceChecks, "obligations": obs})
 	}
 	if len(samples) == 0 {
 		samples = append(samples, map[string]interface{}{"note": "no obligation produced"})
 	}
 	cov := map[string]interface{}{
-		"evaluations":         queries,
-		"distinct_nontrivial": len(distinct),
-		"rule":                c.P.Rule + " — non-trivial = the obligation relates terms with at least one free variable and was discharged by the solver (unsat) or by syntactic identity of the hash-consed terms of the two sides; distinct by structural hash",
-		"samples":             samples,
-		"obligations":         obls,
-		"discharged":          discharged,
-		"trivially_true":      trivial,
+		"evaluations":                 queries,
+		"distinct_nontrivial":         len(distinct),
+		"rule":                        c.P.Rule + " — non-trivial = the obligation relates terms with at least one free variable and was discharged by the solver (unsat) or by syntactic identity of the hash-consed terms of the two sides; distinct by structural hash",
+		"samples":                     samples,
+		"obligations":                 obls,
+		"discharged":                  discharged,
+		"trivially_true":              trivial,
 		"discharged_by_term_identity": identity,
-		"undecided":           undec + len(c.Undecided),
-		"counterexamples":     sat,
-		"jobs":                len(c.Results),
-		"paths":               paths,
-		"infeasible_paths":    infeasible,
-		"panic_paths":         panics,
-		"feasibility_queries": feas,
-		"ssa_instructions":    instrs,
-		"max_bus_trace":       maxTrace,
-		"vacuity_witnesses":   witnesses,
-		"functions_encoded":   sortedFuncs(c.Results),
-		"bounds":              c.P.Bounds,
-		"stubs":               c.P.Stubs,
-		"solver":              map[string]string{"deciding": c.R.solver, "z3": "4.8.12"},
-		"solver_time_s":       st.Seconds(),
-		"load_time_s":         c.L.loadTime.Seconds(),
-		"exhaustive":          c.P.Exhaust && len(c.Undecided) == 0,
-		"known_findings":      c.Known,
-		"inconclusive":        c.Undecided,
+		"undecided":                   undec + len(c.Undecided),
+		"counterexamples":             sat,
+		"jobs":                        len(c.Results),
+		"paths":                       paths,
+		"infeasible_paths":            infeasible,
+		"panic_paths":                 panics,
+		"feasibility_queries":         feas,
+		"ssa_instructions":            instrs,
+		"max_bus_trace":               maxTrace,
+		"race_checked_accesses":       raceChecks,
+		"vacuity_witnesses":           witnesses,
+		"functions_encoded":           sortedFuncs(c.Results),
+		"bounds":                      c.P.Bounds,
+		"stubs":                       c.P.Stubs,
+		"solver":                      map[string]string{"deciding": c.R.solver, "z3": "4.8.12"},
+		"solver_time_s":               st.Seconds(),
+		"load_time_s":                 c.L.loadTime.Seconds(),
+		"exhaustive":                  c.P.Exhaust && len(c.Undecided) == 0,
+		"known_findings":              c.Known,
+		"inconclusive":                c.Undecided,
 	}
 	for k, v := range c.Extra {
 		cov[k] = v
